@@ -19,8 +19,9 @@ Definition dk_of (b : bool) : delay_kind := if b then DelayOnce else DelayPrev.
 Definition run_pastify (stl : bool) (p : zformula) : zformula := pastify (dk_of stl) p (hor p).
 Definition run_past_guard (p : zformula) : bool := wf_bounds p && bounded_future p && future_above_past p.
 (* what C03 promises for the i-th update of the pastified monitor *)
-Definition run_past_spec (p : zformula) (w : ztrace) (n : nat) : list (option extz) :=
-  map (fun i => if hor p <=? i then Some (rho ExtZArith pk_std p w (S i) (i - hor p)) else None) (seq 0 n).
+Definition run_past_spec_pk (pk : zformula -> zformula -> pkind) (p : zformula) (w : ztrace) (n : nat) : list (option extz) :=
+  map (fun i => if hor p <=? i then Some (rho ExtZArith pk p w (S i) (i - hor p)) else None) (seq 0 n).
+Definition run_past_spec (p : zformula) (w : ztrace) (n : nat) : list (option extz) := run_past_spec_pk pk_std p w n.
 
 Definition run_jitter (P tol : Q) (ts : list Q) : nat * (nat * nat) :=
   (jviol (jrun P tol 1 ts), (joff P tol 1 ts, count_bad P tol ts)).
